@@ -15,7 +15,7 @@ OPS = {"+": T.Plus, "-": T.Minus, "–": T.Minus, "*": T.Multiply, "/": T.Divide
        ")": T.CloseParen, "]": T.CloseParen, "=": T.Equal}
 NORM = {"–": "-", "[": "(", "]": ")"}
 WS = " \t\r\n"
-ALPHABET = ["1", "7", ".", "x", "Z", "s", "g", "n", "+", "-", "–", "*", "/", "^", "!", "=", "(", ")", "[", "]", " ", "\t", "\n", "$", "é", "_"]
+ALPHABET = ["1", "7", ".", "x", "Z", "s", "g", "n", "S", "G", "+", "-", "–", "*", "/", "^", "!", "=", "(", ")", "[", "]", " ", "\t", "\n", "$", "é", "_"]
 
 
 def is_digit(c):
@@ -64,6 +64,20 @@ def main():
     maxlen = int(sys.argv[1])
     fails = []
     cases = 0
+    # targeted strings beyond the length bound: case variants / neighbours of the registered function name
+    extra = ["Sgn(x)", "SGN(4)", "sGn", "sgn(x)", "sgnx", "xsgn", "sgnsgn(2)", "sgn sgn", "2SGN(4)+1", "s g n", "4x +\r\n2y", " \t\n ", "12.5.3", "..", "x–y", "[x]"]
+    for s in extra:
+        for keep in (False, True):
+            cases += 1
+            want = reference(s, keep)
+            try:
+                got = [(t.type, t.value) for t in Tokenizer(exclude_padding=not keep).tokenize(s)]
+            except ValueError:
+                got = "ValueError"
+            except Exception as e:  # noqa: BLE001
+                got = type(e).__name__
+            if got != want:
+                fails.append({"clause": "tokens-as-specified", "detail": f"{s!r} (padding {'kept' if keep else 'dropped'}): got {str(got)[:160]} expected {str(want)[:160]}"})
     for n in range(0, maxlen + 1):
         for chars in itertools.product(ALPHABET, repeat=n):
             s = "".join(chars)
